@@ -227,3 +227,33 @@ Theorem C06_ddt_dd_kde_point : forall (dens : R -> R -> R) ddt dd s rg cu,
     (Mag.num (dens dd ddt)) cu [("kde.logLikelihood", [Mag.num dd; Mag.num ddt])].
 Proof. intros. split; [apply kde_point_scaled | split; [apply kde_point_unscaled | apply kde_point_old_api]]. Qed.
 Print Assumptions C06_ddt_dd_kde_point.
+
+(* ---- what the evaluators of C06_mag / C06_tdmag find in the object: the constructors ---- *)
+Require Import C06.TDCtor.
+(* TDMag / TDMagMagnitude (one delay, two images): data vector = (delay, brightnesses), model = (Fermat difference, magnifications), the DATA
+   covariance is block diagonal - delay block, brightness block, zeros between - and the Fermat unit is Mpc / c / day * arcsec^2 *)
+Theorem C06_tdmag_constructors : forall cMpc cc cday carc t0 vt x0 x1 a00 a01 a10 a11 f0 g0 g1 q00 q01 q02 q10 q11 q12 q20 q21 q22 zp rg cu, cc <> 0 -> cday <> 0 ->
+  (exists o,
+   yields (Gtc cMpc cc cday carc) 120 (CClass "TDMagLikelihood" src_TDMagLikelihood_init) None
+     [Mag.vec [t0]; Mag.mat [[vt]]; Mag.vec [x0; x1]; Mag.mat [[a00; a01]; [a10; a11]]; Mag.vec [f0]; Mag.vec [g0; g1]; Mag.mat [[q00; q01; q02]; [q10; q11; q12]; [q20; q21; q22]]]
+     [("magnitude_zero_point", Mag.num zp)] rg cu o cu []
+   /\ fieldc o "_data_vector" = Some (Mag.vec [t0; x0; x1]) /\ fieldc o "_model_tot" = Some (Mag.vec [f0; g0; g1])
+   /\ fieldc o "_cov_data" = Some (Mag.mat [[vt; 0; 0]; [0; a00; a01]; [0; a10; a11]])
+   /\ fieldc o "_cov_model" = Some (Mag.mat [[q00; q01; q02]; [q10; q11; q12]; [q20; q21; q22]])
+   /\ fieldc o "_n_td" = Some (VInt 1) /\ fieldc o "_n_amp" = Some (VInt 2) /\ fieldc o "num_data" = Some (VInt 3)
+   /\ fieldc o "_fermat_unit_conversion" = Some (Mag.num (cMpc / cc / cday * carc ^ 2))
+   /\ fieldc o "_magnitude_zero_point" = Some (Mag.num zp))
+  /\ (exists o,
+   yields (Gtc cMpc cc cday carc) 120 (CClass "TDMagMagnitudeLikelihood" src_TDMagMagnitudeLikelihood_init) None
+     [Mag.vec [t0]; Mag.mat [[vt]]; Mag.vec [x0; x1]; Mag.mat [[a00; a01]; [a10; a11]]; Mag.vec [f0]; Mag.vec [g0; g1]; Mag.mat [[q00; q01; q02]; [q10; q11; q12]; [q20; q21; q22]]] [] rg cu o cu []
+   /\ fieldc o "_data_vector" = Some (Mag.vec [t0; x0; x1]) /\ fieldc o "_model_tot" = Some (Mag.vec [f0; g0; g1])
+   /\ fieldc o "_cov_data" = Some (Mag.mat [[vt; 0; 0]; [0; a00; a01]; [0; a10; a11]])
+   /\ fieldc o "_n_td" = Some (VInt 1) /\ fieldc o "_n_amp" = Some (VInt 2) /\ fieldc o "num_data" = Some (VInt 3)).
+Proof. intros. split; [apply tdmag_ctor | apply tdmagmag_ctor]; assumption. Qed.
+Print Assumptions C06_tdmag_constructors.
+Theorem C06_mag_constructor : forall cMpc cc cday carc a0 a1 c00 c01 c10 c11 mu0 mu1 q00 q01 q10 q11 zp rg cu,
+  yields (Gtc cMpc cc cday carc) 80 (CClass "MagnificationLikelihood" src_MagnificationLikelihood_init) None
+    [Mag.vec [a0; a1]; Mag.mat [[c00; c01]; [c10; c11]]; Mag.vec [mu0; mu1]; Mag.mat [[q00; q01]; [q10; q11]]] [("magnitude_zero_point", Mag.num zp)] rg cu
+    (mag_obj a0 a1 c00 c01 c10 c11 mu0 mu1 q00 q01 q10 q11 zp) cu [].
+Proof. intros. apply mag_ctor. Qed.
+Print Assumptions C06_mag_constructor.
